@@ -15,7 +15,7 @@ from . import rules_c05
 LEVEL = "other"
 U64 = "/repo/stdlib/asm/math/u64.masm"
 U256 = "/repo/stdlib/asm/math/u256.masm"
-NOT_DECIDED = {"shl": "pow2 / u32split", "shr": "pow2, u32divmod and field division", "rotl": "pow2", "rotr": "pow2"}
+NOT_DECIDED = {"rotl": "the range of the recombined limb needs a bit-level argument (low bits of a shifted limb are zero)", "rotr": "same as rotl"}
 # bit counts: (u32 instruction, limb examined first, value of that limb for which the count continues into the other limb)
 BITCOUNT = {"clz": ("u32clz", "hi", 0), "ctz": ("u32ctz", "lo", 0), "clo": ("u32clo", "hi", U32 - 1), "cto": ("u32cto", "lo", U32 - 1)}
 # u256 procedures carry no `#!` specification (except mul_unsafe): the specification is the one their names state, with the limb layout documented at mul_unsafe
@@ -188,6 +188,19 @@ def run_u64(ctx, F):
             ctx.inst(key=key, nontrivial=False)
             ctx.analysed("%s: not decided (%s)" % (key, NOT_DECIDED[name] or "bit counting through if.true on uninterpreted u32 functions"))
             continue
+        if name in ("shl", "shr"):
+            ctx.inst(key=key, nontrivial=True)
+            try:
+                ok, why = decide_shift(ctx, key, loc, X, M, name)
+            except (Undecided, MasmError) as e:
+                ctx.violation("UNANALYSABLE|%s" % key, loc, str(e)[:300])
+                continue
+            ctx.oblig(ok)
+            decided += 1
+            ctx.sample({"procedure": key, "verdict": "holds" if ok else why})
+            if not ok:
+                ctx.violation("arith|%s" % key, loc, "%s does not compute its documented result: %s" % (key, why))
+            continue
         d = parse_doc(p.doc)
         ctx.inst(key=key, nontrivial=True)
         if d is None:
@@ -334,6 +347,85 @@ def decide_u64(name, where, ins, outs, res, st, env, A, B, gi, go):
     if re.search(r"c = a // b|c = a % b|r = a % b, q = a / b", w):
         return decide_div(name, w, res, st, env, A, B, gi, go)
     return False, "specification text not understood: %r" % w.strip()[:80]
+
+
+def reduce_pow2(p, st):
+    """normal form modulo D * E = 2^32 for every power-of-two pair of the state"""
+    out = ZP()
+    for m, c in p.t.items():
+        d = dict(m)
+        for D, E in st.pow2.items():
+            k = min(d.get(D, 0), d.get(E, 0))
+            if k:
+                c *= U32 ** k
+                for v in (D, E):
+                    d[v] -= k
+                    if not d[v]:
+                        del d[v]
+        out = out + ZP({tuple(sorted(d.items())): c})
+    return out
+
+
+def run_case(X, M, name, ins, case):
+    st = State()
+    st.case = dict(case)
+    st.stack = list(ins) + [Val(ZP.var("deep%d" % i), P - 1) for i in range(len(ins), 64)]
+    out = []
+    X.run_block(st, M.procs[name].body, out, [4000])
+    if len(out) != 1:
+        raise Undecided("%d paths" % len(out))
+    return out[0]
+
+
+def decide_shift(ctx, key, loc, X, M, name):
+    """shl: c = a * 2^b mod 2^64 with 2^b opaque; shr: c = floor(a / 2^b), decided separately for b < 32 (2^b = D) and b >= 32
+    (2^b = 2^32 * D) with the division identities of u32divmod and D * E = 2^32"""
+    ins = [Val(ZP.var("b"), 63), Val(ZP.var("a_hi"), U32 - 1), Val(ZP.var("a_lo"), U32 - 1)]
+    A = ZP.var("a_hi") * ZP.const(U32) + ZP.var("a_lo")
+    if name == "shl":
+        st = run_case(X, M, name, ins, {})
+        check_frame(ctx, key, loc, st, 2, 3)
+        ts = [v for v in st.defs if st.defs[v][0] == "pow2"]
+        if len(ts) != 1:
+            return False, "expected exactly one pow2"
+        if repr(st.defs[ts[0]][1].z) != "b":
+            return False, "pow2 is applied to %r, expected the shift amount b" % (st.defs[ts[0]][1].z,)
+        c = st.stack[:2]
+        C = c[0].z * ZP.const(U32) + c[1].z
+        if not all(v.ub < U32 and not v.wrapped for v in c):
+            return False, "a result limb is not a u32 value"
+        d = C - A * ZP.var(ts[0])
+        return (True, "") if d.divisible_by(U32 ** 2) else (False, "result - a * 2^b is not a multiple of 2^64: %s" % repr(d)[:160])
+    # shr
+    for case in ("lo", "hi"):
+        try:
+            st = run_case(X, M, name, ins, {"pow2": case})
+        except Undecided as e:
+            return False, "case b %s 32: %s" % ("<" if case == "lo" else ">=", e)
+        check_frame(ctx, key, loc, st, 2, 3)
+        (D, E), = st.pow2.items()
+        if repr(st.defs[D][1].z) != "b":
+            return False, "pow2 is applied to %r, expected the shift amount b" % (st.defs[D][1].z,)
+        c_hi, c_lo = st.stack[0], st.stack[1]
+        qhi = [q for r, d, q in st.rems if d == ZP.var(D) and r == ZP.var("a_hi") - ZP.var(D) * ZP.var(q)]
+        if len(qhi) != 1:
+            return False, "case b %s 32: a_hi is not divided by 2^(b mod 32)" % ("<" if case == "lo" else ">=")
+        if case == "lo":
+            C = c_hi.z * ZP.const(U32) + c_lo.z
+            rem = reduce_pow2(A - C * ZP.var(D), st)
+            ok = any(rem == r and d == ZP.var(D) for r, d, q in st.rems) and c_hi.z == ZP.var(qhi[0])
+            if not ok:
+                return False, "for b < 32 (2^b = D): a - c * D = %s is not a remainder of a division by D, or the high limb is not floor(a_hi / D) (c_hi = %r, c_lo = %r)" % (repr(rem)[:120], c_hi.z, c_lo.z)
+        else:
+            ok = c_hi.z.is_zero() and c_lo.z == ZP.var(qhi[0])
+            if not ok:
+                extra = ""
+                for v in c_hi.z.vars():
+                    df = st.defs.get(v)
+                    if df and df[0] == "quot":
+                        extra = "; %s = floor(%r / %r), which is 1 for a_lo = 2^32 - 1" % (v, df[1], df[2]) if df[2].const_value() == U32 - 1 else "; %s = floor(%r / %r)" % (v, df[1], df[2])
+                return False, "for b >= 32 (2^b = 2^32 * D) the result must be [0, floor(a_hi / D)] but is [c_hi = %r, c_lo = %r]%s" % (c_hi.z, c_lo.z, extra)
+    return True, ""
 
 
 def decide_bitcount(name, ins, finals):
